@@ -82,9 +82,9 @@ func genSecret(t *rapid.T) []byte {
 //   - non-empty slots differ between the assignments;
 //   - the equality pattern among slots is the same in both assignments (map
 //     keys: equal secrets collapse to one entry).
-func genSecrets(t *rapid.T, n int) (s1, s2 [][]byte) {
+func genSecrets(t *rapid.T, n int, allowEmpty bool) (s1, s2 [][]byte) {
 	for i := 0; i < n; i++ {
-		if rapid.IntRange(0, 9).Draw(t, "empty") == 0 {
+		if rapid.IntRange(0, 9).Draw(t, "empty") == 0 && allowEmpty {
 			s1, s2 = append(s1, []byte{}), append(s2, []byte{})
 			continue
 		}
@@ -99,6 +99,22 @@ func genSecrets(t *rapid.T, n int) (s1, s2 [][]byte) {
 			}
 		}
 		s1, s2 = append(s1, a), append(s2, b)
+	}
+	if !allowEmpty {
+		// the shape has a multi-entry map keyed by secrets: no two secrets may be
+		// equal, or entries would collapse differently from entry to entry
+		for j := range s1 {
+			for tries := 0; ; tries++ {
+				dup := false
+				for i := 0; i < j && !dup; i++ {
+					dup = bytes.Equal(s1[i], s1[j])
+				}
+				if !dup {
+					break
+				}
+				s1[j] = append(s1[j], []byte(fmt.Sprintf("K%d", j+tries))...)
+			}
+		}
 	}
 	fixSecrets(s1, s2)
 	return s1, s2
